@@ -579,14 +579,6 @@ def stateresolution_conflictedEventSorter_Len : List String := [
   "return len(s)"
 ]
 
-def stateresolution_conflictedEventSorter_Less : List String := [
-  "func func(i, j int) bool",
-  "if s[i].depth == s[j].depth {",
-  "return bytes.Compare(s[i].eventIDSHA1[:], s[j].eventIDSHA1[:]) > 0",
-  "}",
-  "return s[i].depth < s[j].depth"
-]
-
 def stateresolution_conflictedEventSorter_Swap : List String := [
   "func func(i, j int)",
   "s[i], s[j] = s[j], s[i]"
@@ -1506,6 +1498,6 @@ def stateresolutionv2heaps_type_stateResV2ConflictedPowerLevelHeap : List String
   "type stateResV2ConflictedPowerLevelHeap []*stateResV2ConflictedPowerLevel"
 ]
 
-def functions : List String := ["authstate.go:FederatedStateProvider.StateBeforeEvent", "authstate.go:FederatedStateProvider.StateIDsBeforeEvent", "authstate.go:.CheckSendJoinResponse", "authstate.go:.CheckStateResponse", "authstate.go:.LineariseStateResponse", "authstate.go:.VerifyAuthRulesAtState", "authstate.go:.checkAllowedByAuthEvents", "authstate.go:stateResponseImpl.GetAuthEvents", "authstate.go:stateResponseImpl.GetStateEvents", "authstate.go:type FederatedStateClient", "authstate.go:type FederatedStateProvider", "authstate.go:type StateIDResponse", "authstate.go:type StateProvider", "authstate.go:type StateResponse", "authstate.go:type stateResponseImpl", "backfill.go:.RequestBackfill", "backfill.go:type BackfillClient", "backfill.go:type BackfillRequester", "load.go:AuthChainErr.Error", "load.go:AuthChainErr.Is", "load.go:AuthRulesErr.Error", "load.go:AuthRulesErr.Is", "load.go:EventsLoader.LoadAndVerify", "load.go:SignatureErr.Error", "load.go:SignatureErr.Is", "load.go:.NewEventsLoader", "load.go:type AuthChainErr", "load.go:type AuthRulesErr", "load.go:type EventLoadResult", "load.go:type EventsLoader", "load.go:type SignatureErr", "stateresolution.go:.ResolveConflicts", "stateresolution.go:.ResolveConflictsNew", "stateresolution.go:.ResolveStateConflicts", "stateresolution.go:.sortConflictedEventsByDepthAndSHA1", "stateresolution.go:.splitConflictedUnconflicted", "stateresolution.go:conflictedEventSorter.Len", "stateresolution.go:conflictedEventSorter.Less", "stateresolution.go:conflictedEventSorter.Swap", "stateresolution.go:stateResolver.Create", "stateresolution.go:stateResolver.JoinRules", "stateresolution.go:stateResolver.Member", "stateresolution.go:stateResolver.PowerLevels", "stateresolution.go:stateResolver.ThirdPartyInvite", "stateresolution.go:stateResolver.Valid", "stateresolution.go:stateResolver.addAuthEvent", "stateresolution.go:stateResolver.addConflicted", "stateresolution.go:stateResolver.authEventAt", "stateresolution.go:stateResolver.removeAuthEvent", "stateresolution.go:stateResolver.resolveAndAddAuthBlocks", "stateresolution.go:stateResolver.resolveAuthBlock", "stateresolution.go:stateResolver.resolveNormalBlock", "stateresolution.go:type conflictedEvent", "stateresolution.go:type conflictedEventSorter", "stateresolution.go:type stateResolver", "stateresolutionv2.go:.HeaderedReverseTopologicalOrdering", "stateresolutionv2.go:.ResolveStateConflictsV2", "stateresolutionv2.go:.ResolveStateConflictsV2New", "stateresolutionv2.go:.ReverseTopologicalOrdering", "stateresolutionv2.go:.creatorsFromCreateEventOrNone", "stateresolutionv2.go:.eventMapFromEvents", "stateresolutionv2.go:.getCreateEvent", "stateresolutionv2.go:.isControlEvent", "stateresolutionv2.go:.kahnsAlgorithmUsingAuthEvents", "stateresolutionv2.go:.kahnsAlgorithmUsingPrevEvents", "stateresolutionv2.go:.newPDUSet", "stateresolutionv2.go:stateResolverV2.applyEvents", "stateresolutionv2.go:stateResolverV2.authAndApplyEvents", "stateresolutionv2.go:stateResolverV2.calculateAuthDifference", "stateresolutionv2.go:stateResolverV2.calculateAuthDifferenceNew", "stateresolutionv2.go:stateResolverV2.calculateFullAuthChainAndConflictedSubgraph", "stateresolutionv2.go:stateResolverV2.createPowerLevelMainline", "stateresolutionv2.go:stateResolverV2.getFirstPowerLevelMainlineEvent", "stateresolutionv2.go:stateResolverV2.getPowerLevelFromAuthEvents", "stateresolutionv2.go:stateResolverV2.mainlineOrdering", "stateresolutionv2.go:stateResolverV2.reverseTopologicalOrdering", "stateresolutionv2.go:stateResolverV2.wrapOtherEventsForSort", "stateresolutionv2.go:stateResolverV2.wrapPowerLevelEventsForSort", "stateresolutionv2.go:type IsRejected", "stateresolutionv2.go:type TopologicalOrder", "stateresolutionv2.go:type stateResolverV2", "stateresolutionv2heaps.go:stateResV2ConflictedOtherHeap.Pop", "stateresolutionv2heaps.go:stateResV2ConflictedOtherHeap.Push", "stateresolutionv2heaps.go:stateResV2ConflictedPowerLevelHeap.Pop", "stateresolutionv2heaps.go:stateResV2ConflictedPowerLevelHeap.Push", "stateresolutionv2heaps.go:type stateResV2ConflictedOther", "stateresolutionv2heaps.go:type stateResV2ConflictedOtherHeap", "stateresolutionv2heaps.go:type stateResV2ConflictedPowerLevel", "stateresolutionv2heaps.go:type stateResV2ConflictedPowerLevelHeap"]
+def functions : List String := ["authstate.go:FederatedStateProvider.StateBeforeEvent", "authstate.go:FederatedStateProvider.StateIDsBeforeEvent", "authstate.go:.CheckSendJoinResponse", "authstate.go:.CheckStateResponse", "authstate.go:.LineariseStateResponse", "authstate.go:.VerifyAuthRulesAtState", "authstate.go:.checkAllowedByAuthEvents", "authstate.go:stateResponseImpl.GetAuthEvents", "authstate.go:stateResponseImpl.GetStateEvents", "authstate.go:type FederatedStateClient", "authstate.go:type FederatedStateProvider", "authstate.go:type StateIDResponse", "authstate.go:type StateProvider", "authstate.go:type StateResponse", "authstate.go:type stateResponseImpl", "backfill.go:.RequestBackfill", "backfill.go:type BackfillClient", "backfill.go:type BackfillRequester", "load.go:AuthChainErr.Error", "load.go:AuthChainErr.Is", "load.go:AuthRulesErr.Error", "load.go:AuthRulesErr.Is", "load.go:EventsLoader.LoadAndVerify", "load.go:SignatureErr.Error", "load.go:SignatureErr.Is", "load.go:.NewEventsLoader", "load.go:type AuthChainErr", "load.go:type AuthRulesErr", "load.go:type EventLoadResult", "load.go:type EventsLoader", "load.go:type SignatureErr", "stateresolution.go:.ResolveConflicts", "stateresolution.go:.ResolveConflictsNew", "stateresolution.go:.ResolveStateConflicts", "stateresolution.go:.sortConflictedEventsByDepthAndSHA1", "stateresolution.go:.splitConflictedUnconflicted", "stateresolution.go:conflictedEventSorter.Len", "stateresolution.go:conflictedEventSorter.Swap", "stateresolution.go:stateResolver.Create", "stateresolution.go:stateResolver.JoinRules", "stateresolution.go:stateResolver.Member", "stateresolution.go:stateResolver.PowerLevels", "stateresolution.go:stateResolver.ThirdPartyInvite", "stateresolution.go:stateResolver.Valid", "stateresolution.go:stateResolver.addAuthEvent", "stateresolution.go:stateResolver.addConflicted", "stateresolution.go:stateResolver.authEventAt", "stateresolution.go:stateResolver.removeAuthEvent", "stateresolution.go:stateResolver.resolveAndAddAuthBlocks", "stateresolution.go:stateResolver.resolveAuthBlock", "stateresolution.go:stateResolver.resolveNormalBlock", "stateresolution.go:type conflictedEvent", "stateresolution.go:type conflictedEventSorter", "stateresolution.go:type stateResolver", "stateresolutionv2.go:.HeaderedReverseTopologicalOrdering", "stateresolutionv2.go:.ResolveStateConflictsV2", "stateresolutionv2.go:.ResolveStateConflictsV2New", "stateresolutionv2.go:.ReverseTopologicalOrdering", "stateresolutionv2.go:.creatorsFromCreateEventOrNone", "stateresolutionv2.go:.eventMapFromEvents", "stateresolutionv2.go:.getCreateEvent", "stateresolutionv2.go:.isControlEvent", "stateresolutionv2.go:.kahnsAlgorithmUsingAuthEvents", "stateresolutionv2.go:.kahnsAlgorithmUsingPrevEvents", "stateresolutionv2.go:.newPDUSet", "stateresolutionv2.go:stateResolverV2.applyEvents", "stateresolutionv2.go:stateResolverV2.authAndApplyEvents", "stateresolutionv2.go:stateResolverV2.calculateAuthDifference", "stateresolutionv2.go:stateResolverV2.calculateAuthDifferenceNew", "stateresolutionv2.go:stateResolverV2.calculateFullAuthChainAndConflictedSubgraph", "stateresolutionv2.go:stateResolverV2.createPowerLevelMainline", "stateresolutionv2.go:stateResolverV2.getFirstPowerLevelMainlineEvent", "stateresolutionv2.go:stateResolverV2.getPowerLevelFromAuthEvents", "stateresolutionv2.go:stateResolverV2.mainlineOrdering", "stateresolutionv2.go:stateResolverV2.reverseTopologicalOrdering", "stateresolutionv2.go:stateResolverV2.wrapOtherEventsForSort", "stateresolutionv2.go:stateResolverV2.wrapPowerLevelEventsForSort", "stateresolutionv2.go:type IsRejected", "stateresolutionv2.go:type TopologicalOrder", "stateresolutionv2.go:type stateResolverV2", "stateresolutionv2heaps.go:stateResV2ConflictedOtherHeap.Pop", "stateresolutionv2heaps.go:stateResV2ConflictedOtherHeap.Push", "stateresolutionv2heaps.go:stateResV2ConflictedPowerLevelHeap.Pop", "stateresolutionv2heaps.go:stateResV2ConflictedPowerLevelHeap.Push", "stateresolutionv2heaps.go:type stateResV2ConflictedOther", "stateresolutionv2heaps.go:type stateResV2ConflictedOtherHeap", "stateresolutionv2heaps.go:type stateResV2ConflictedPowerLevel", "stateresolutionv2heaps.go:type stateResV2ConflictedPowerLevelHeap"]
 
 end VPins.C11
